@@ -430,7 +430,17 @@ pub fn run(args: &Args) -> i32 {
         let b = crate::model::build_fragmented(&fm);
         let mut bytes = b.whole.bytes.clone();
         let foreign = g % 2 == 0;
-        if foreign {
+        if g % 4 == 1 {
+            // a plain movie with 2-3 tracks whose movie header carries no duration (0): an
+            // accessor that falls back to "some track" must still pick the same one every time
+            let m = crate::model::gen_movie(&mut rng, 3, 6, 16);
+            let fl = crate::model::gen_file_layout(&mut rng, &m);
+            let built = crate::model::build_plain(&m, &fl, &|_| {});
+            bytes = built.ser.bytes.clone();
+            for f in built.ser.fields.iter().filter(|f| f.path.contains("mvhd") && f.path.contains(".duration#")) {
+                crate::hostile::put(&mut bytes, f.off, f.width, 0);
+            }
+        } else if foreign {
             // the track_ID field of one tfhd
             let cands: Vec<&crate::refenc::Field> = b.whole.fields.iter().filter(|f| f.path.contains("tfhd") && f.path.contains(".track_ID#")).collect();
             if let Some(f) = cands.get(rng.usize_below(cands.len().max(1))) {
@@ -495,6 +505,22 @@ pub fn run(args: &Args) -> i32 {
         rep.cover_nt(hash_str(&muxdrive::shape(&h)));
         rep.add("mux_pairs_compared_in_process", 1);
         mine.push((i, a));
+        rep.end();
+    }
+    // "byte-identical" whenever the run happens: the first 300 histories of this shard once more
+    // after the wall clock has moved on by more than a second (a creation / modification time
+    // taken from the clock would be the same in any two back-to-back runs)
+    if args.only.is_none() && !mine.is_empty() {
+        rep.begin("mux:later");
+        std::thread::sleep(std::time::Duration::from_millis(1100));
+        for (i, a) in mine.iter().take(300) {
+            let again = mux_hash(&history_for(args.seed, *i));
+            if &again != a {
+                rep.fail("C15", &format!("mux:{}", i), "mux_at_a_later_time_differs", json!({"history": history_for(args.seed, *i).short()}));
+                break;
+            }
+            rep.add("mux_outputs_compared_across_a_second_boundary", 1);
+        }
         rep.end();
     }
     if args.only.is_none() && !mine.is_empty() {
